@@ -2312,12 +2312,30 @@ class WBEMConnection:  # pylint: disable=too-many-instance-attributes
 
         # #  Original code return tup_tree
 
+        def rsp_cimvalue(what, value, type_):
+            """
+            Convert a value from the response into its CIM data type,
+            raising CIMXMLParseError if value and type do not match.
+            """
+            try:
+                return cimvalue(value, type_)
+            except (ValueError, TypeError, OverflowError) as exc:
+                new_exc = CIMXMLParseError(
+                    _format("Element {0} in the response has a value that "
+                            "is invalid for its type {1!A}: {2}",
+                            what, type_, exc),
+                    conn_id=self.conn_id)
+                new_exc.__cause__ = None
+                raise new_exc
+
         # Convert optional RETURNVALUE into a Python object
         returnvalue = None
 
         if tup_tree and tup_tree[0][0] == 'RETURNVALUE':
 
-            returnvalue = cimvalue(tup_tree[0][2], tup_tree[0][1]['PARAMTYPE'])
+            returnvalue = rsp_cimvalue(
+                'RETURNVALUE', tup_tree[0][2],
+                tup_tree[0][1].get('PARAMTYPE', None))
             tup_tree = tup_tree[1:]
 
         # Convert zero or more PARAMVALUE elements into dictionary
@@ -2328,7 +2346,8 @@ class WBEMConnection:  # pylint: disable=too-many-instance-attributes
             if p[1] == 'reference':
                 output_params[p[0]] = p[2]
             else:
-                output_params[p[0]] = cimvalue(p[2], p[1])
+                output_params[p[0]] = rsp_cimvalue(
+                    _format("PARAMVALUE {0!A}", p[0]), p[2], p[1])
 
         return (returnvalue, output_params)
 
